@@ -335,6 +335,11 @@ def main(argv):
 
 if __name__ == "__main__":
     _rc = main(sys.argv)
+    try:  # joblib's loky keeps idle workers (holding our stdout pipe) alive for 300 s: shut them down now
+        from joblib.externals.loky import get_reusable_executor
+        get_reusable_executor().shutdown(wait=True, kill_workers=True)
+    except Exception:  # noqa: BLE001
+        pass
     sys.stdout.flush()
     sys.stderr.flush()
     # a violation of C10/C11 can leave a non-daemon thread blocked for ever: never let that hang the checker
